@@ -189,7 +189,7 @@ ADDED = {
     'C16': ' Parameters whose names extend an ignored name; a pass-through decorator under @cached. A second object with its own cache (a third of the classes compare all instances equal); versions 0, empty and with path separators. A derived class may override the cached methods under another version while the base versions stay reachable through super() on the same object.',
     'C17': ' Callables without __name__, list subclasses with their own iteration, one slow element per chunk (0.8 s wall clock), thousands of chunks. Outputs include numpy arrays, pandas objects and objects that refuse comparison / truth / hashing; inputs include iterators and map objects with an exact `total` hint.',
     'C18': ' A same-named task object is created while a task runs. A log line written from a worker thread started by run; refused records are violations; records with int keys and inf. Derived task classes, records holding numpy scalars / paths / tuples; records that cannot be read back are violations.',
-    'C19': ' The caller's parameters dict gets new values after the helper was built. A second helper of the same class with other parameter values is built before the first is evaluated; the TestChain object is dropped and the stored result read again through the task.',
+    'C19': ' The parameters dict of the caller gets new values after the helper was built. A second helper of the same class with other parameter values is built before the first is evaluated; the TestChain object is dropped and the stored result read again through the task.',
     'C20': ' A composing part mounting the other parts of its file; a source directory moved to another volume and linked in. 30 % of the real migrations are run by `python -O`.',
 }
 
